@@ -94,7 +94,9 @@ def g_cond(rng, depth):
     if rng.random() < 0.5:
         e["resource"] = g_strexpr(rng)
     if rng.random() < 0.5:
-        e["ctx"] = rng.choice([{}, {"ip": "1.2.3.4"}, {"n": [1, None]}])
+        # ctx values of every shape under keys that requests also put into context._rebac (z, limits)
+        e["ctx"] = rng.choice([{}, {"ip": "1.2.3.4"}, {"n": [1, None]}, {"z": {"max": 5}}, {"z": 1}, {"z": None},
+                               {"limits": {"max": 5, "min": {"a": 1}}, "z": [1]}, {"z": {"max": {"deep": 1}}}])
     return {"rel": e}
 
 
@@ -212,7 +214,9 @@ def requests(rng, n):
                     "resource": {"type": rng.choice(["doc", "doc", "doc", "doc", "img", None, 1, "", "*"]), "id": rng.choice(HOSTILE[:24]),
                                  "attrs": rng.choice([{}, {"k": rng.choice(HOSTILE)}])},
                     "context": rng.choice([{}, {"a": rng.choice(HOSTILE), "b": rng.choice(HOSTILE)},
-                                           {"a": rng.choice(HOSTILE), "_rebac": rng.choice([{}, {"z": 1}, None])},
+                                           {"a": rng.choice(HOSTILE), "_rebac": rng.choice([{}, {"z": 1}, None, {"z": {"max": 1}}, {"z": None},
+                                                                                           {"z": [1], "limits": 10}, {"z": "s", "limits": {"max": None}},
+                                                                                           {"limits": {"min": 3}}])},
                                            {"mfa": rng.choice(HOSTILE[:10]), "auth_level": rng.choice(HOSTILE), "reauth_age_seconds": rng.choice(HOSTILE),
                                             "consent": rng.choice(HOSTILE)}])})
     return out
@@ -373,6 +377,25 @@ def gen_cases(chk):
             req = {"subject": {"id": "u", "roles": [], "attrs": {}}, "action": "read",
                    "resource": {"type": "doc", "id": "1", "attrs": {}}, "context": {"a": gen.fresh(v), "b": gen.fresh(rng.choice(HOSTILE))}}
             cases.append({"fam": "hostile", "doc": doc, "reqs": [req]})
+    # rel conditions: every ctx shape of the rule against every shape of the request's context._rebac (an object
+    # whose values are any JSON value, the two sharing keys), with and without a relationship checker
+    shapes = [None, {}, {"z": 1}, {"z": None}, {"z": "s"}, {"z": [1]}, {"z": {"max": 5}}, {"z": {"max": {"deep": 1}}},
+              {"z": {"max": 5}, "limits": {"min": {"a": 1}}}, {"limits": 10, "z": {}}]
+    for ctx_shape in shapes:
+        for rb in shapes:
+            rel = {"relation": "viewer"}
+            if ctx_shape is not None:
+                rel["ctx"] = ctx_shape
+            doc = {"algorithm": "first-applicable", "rules": [
+                {"id": "h", "effect": "permit", "actions": ["read"], "resource": {"type": "doc"}, "condition": {"rel": rel}},
+                {"id": "fallback", "effect": "deny", "actions": ["*"], "resource": {"type": "*"}}]}
+            ctxv = {"a": 1}
+            if rb is not None:
+                ctxv["_rebac"] = gen.fresh(rb)
+            req = {"subject": {"id": "u", "roles": [], "attrs": {}}, "action": "read",
+                   "resource": {"type": "doc", "id": "1", "attrs": {}}, "context": ctxv}
+            for with_checker in (False, True):
+                cases.append({"fam": "relctx", "doc": doc, "reqs": [req], "checker": with_checker})
     return cases
 
 
